@@ -42,12 +42,14 @@ def env(extra: bool):
         # (text, output statements and illegal tags are registered under the names of their token kinds: no markup can select them, so a
         # tag *named* content / output / illegal is as unknown as any other)
         _REGISTERED[extra] = frozenset(_envs[extra].tags) - {"content", "output", "illegal"}
+        _REGISTERED_ENDS[extra] = frozenset(getattr(t, "end", "") or "" for t in _envs[extra].tags.values() if t.block)
         _BLOCK_TAGS[extra] = frozenset(t.name for t in _envs[extra].tags.values() if t.block and t.name not in ("comment", "doc", "content", "illegal", "output"))
     return _envs[extra]
 
 
 _REGISTERED: dict[bool, frozenset] = {}
 _BLOCK_TAGS: dict[bool, frozenset] = {}
+_REGISTERED_ENDS: dict[bool, frozenset] = {}
 
 
 # token -> source text with an expression that parses
@@ -67,6 +69,7 @@ TOKENS = {
     "with": "{% with v: 1 %}", "endwith": "{% endwith %}", "macro": "{% macro 'm' x %}", "endmacro": "{% endmacro %}", "call": "{% call 'm' 1 %}",
     "block": "{% block b %}", "endblock": "{% endblock %}", "translate": "{% translate %}", "plural": "{% plural %}", "endtranslate": "{% endtranslate %}",
     "text": "t", "out": "{{ a }}",
+    "endendif": "{% endendif %}", "endendfor": "{% endendfor %}", "endendcase": "{% endendcase %}",
 }
 HAND_PSEUDO = ["{% illegal %}", "{% content %}", "{% output %}", "{% if a %}{% output x %}{% endif %}", "{{ a }}{% content %}t"]
 CORE = ["if", "elsif", "else", "endif", "for", "endfor", "break", "case", "when", "endcase", "unless", "endunless", "nosuch", "endnosuch", "assign", "text", "commentx", "endcomment", "endassign"]
@@ -174,6 +177,15 @@ def judge(ctx: core.Ctx, case: dict[str, Any]) -> None:
             ctx.evaluations += 1
             ctx.violation("missed-unknown-tag", f"unknown tag {n!r} in {src!r:.200} is not reported in unknown_tags")
             return
+    # a name that starts with "end" closes something only if what follows "end" is a block tag - a registered one, or a custom one that the
+    # source itself opens; "end" + (the end tag of a registered block), e.g. endendif, closes nothing and is as unknown as any other name
+    all_blocks = {t for t in registered if "end" + t in _REGISTERED_ENDS[extra]}
+    for n in set(names):
+        rest = n[3:] if n.startswith("end") else ""
+        if rest.startswith("end") and rest[3:] in all_blocks and n not in registered and n not in res.unknown_tags:
+            ctx.evaluations += 1
+            ctx.violation("missed-unknown-tag:end-of-an-end-tag", f"{n!r} in {src!r:.200} closes nothing ({rest!r} is itself an end tag) and is not reported in unknown_tags; reported: unknown {sorted(res.unknown_tags)}, unclosed {sorted(res.unclosed_tags)}")
+            return
     block_tags = _BLOCK_TAGS[extra]
     for b in block_tags:
         opens = names.count(b)
@@ -230,6 +242,7 @@ def gen_valid(rng, extra: bool) -> dict[str, Any]:
 
 
 HAND = HAND_PSEUDO + [
+    "{% if a %}{% endif %}{% endendif %}", "{% endendif %}", "{% if a %}{% endendif %}{% endif %}", "{% for i in xs %}{% endfor %}{% endendfor %}{% if a %}{% endif %}", "{% endendif %}{% if a %}x{% endif %}",
     "{% for i in xs %}{{ i }}{% else %}none{% endfor %}", "{% case a %}{% when 1 %}x{% else %}y{% endcase %}", "{% endif %}", "{% endfor %}{% if a %}{% endif %}",
     "{% if a %}{% for i in xs %}{% else %}{% endfor %}{% else %}{% endif %}", "{% tablerow i in xs %}{% endtablerow %}", "{% unless a %}{% else %}{% endunless %}",
     "{% liquid\nif a\necho 1\nendif\n%}", "{% raw %}{% if %}{% endraw %}", "{% comment %}{% if %}{% endcomment %}", "{% doc %}x{% enddoc %}",
